@@ -426,6 +426,22 @@ def _jsonable(o):
     return repr(o)
 
 
+def known_probe(ctx, pid, site, fails_fn, case):
+    """deterministic replay of ONE listed finding on the real code.  `fails_fn()` evaluates the listed input against an
+    exact oracle and returns (fails, detail).  While it still fails: KNOWN-FINDING line if `known: property=<pid> site=<site>`
+    is listed, a violation with the input otherwise; a note when it no longer reproduces.  Nothing is written at run time."""
+    listed = [t for k, t in known_findings(pid) if k == "known" and ("site=" + site) in t]
+    fails, detail = fails_fn()
+    ctx.extra["known_finding_still_fails:" + site] = bool(fails)
+    ctx.test("known_probe:" + site.rsplit(":", 1)[-1], True)
+    if fails and listed:
+        ctx.known(site, "site=%s still fails: %s; listed in known_findings.txt" % (site, detail))
+    elif fails:
+        ctx.violation("%s, and this is not listed in known_findings.txt" % detail, case, found_input=True)
+    else:
+        print("note: the listed known finding of %s (%s) no longer reproduces on this tree" % (pid, site), flush=True)
+
+
 def known_findings(pid):
     """entries of known_findings.txt for this property: list of (kind, text)"""
     out = []
